@@ -85,7 +85,7 @@ def run(ck, thorough):
             total += k
             os.remove(files[n])
     tp = ck.path("impltrace.ndjson")
-    s = ck.drive("jstok", "impl", "-cases", allc, "-out", tp, "-seed", ck.seed, "-traceevery", 64 if thorough else 16, timeout=1800)
+    s = ck.drive("jstok", "impl", "-cases", allc, "-out", tp, "-seed", ck.seed, "-traceevery", 64 if thorough else 16, "-variants", 2 if thorough else 3, timeout=1800)
     if s.get("_rc") == 3:
         ck.fatal("jstok impl: a call into the lexer did not return")
     if s["executions"] < s["cases"] or s["cases"] < max(info[n]["inputs"] for n in names) or s["cases"] > total:
